@@ -218,6 +218,19 @@ def cases(thorough):
                                              "manhattan"],
                   mode=["threshold", "recurrence_rate"]):
         out.append(["crp", p])
+    # unequal lengths in more than one dimension: multi-component series
+    # and delay embeddings (both orders of the lengths)
+    for p in grid(Lx=[3, 6, 9], Ly=[3, 6, 9], d=[2, 3],
+                  metric=["supremum", "euclidean", "manhattan"]):
+        out.append(["crp", dict(p, mode="threshold")])
+        if p["metric"] == "supremum":
+            out.append(["isrn", dict(p, mode="threshold")])
+    for p in grid(Lx=[5, 9], Ly=[5, 8, 11], dim=[2, 3], tau=[1, 2],
+                  metric=["supremum", "euclidean", "manhattan"]):
+        out.append(["crp", dict(p, mode="threshold")])
+        if p["metric"] == "supremum":
+            out.append(["isrn", dict(p, mode="recurrence_rate", val=0.3,
+                                     tau2=3 - p["tau"])])
     for p in grid(L=S + [7], lag=[-9, -2, -1, 0, 1, 2, 9],
                   mode=["threshold", "recurrence_rate", "threshold_std"]):
         out.append(["jrp", p])
